@@ -53,7 +53,9 @@ func (f *Progx) Call(s *slip.Scope, args slip.List, depth int) slip.Object {
 	ns.Block = true
 	ns.TagBody = true
 	d2 := depth + 1
-	processBinding(ns, ns, args[0], d2)
+	if exit := processBinding(ns, ns, args[0], d2); exit != nil {
+		return exit
+	}
 	for i := 1; i < len(args); i++ {
 		switch tr := slip.EvalArg(ns, args, i, d2).(type) {
 		case *slip.ReturnResult:
